@@ -511,6 +511,14 @@ fn worker_main(shm_path: &str) -> ! {
         let lim = libc::rlimit { rlim_cur: 0, rlim_max: 0 };
         libc::setrlimit(libc::RLIMIT_CORE, &lim);
         libc::signal(libc::SIGCHLD, libc::SIG_IGN);
+        // Ignored signals and the signal mask survive exec: a harness started under nohup (or by a runner that
+        // ignores / blocks them) would hand SIG_IGN for SIGHUP to the worker, which then never dies of it.
+        for sig in [libc::SIGHUP, libc::SIGTERM, libc::SIGINT, libc::SIGQUIT] {
+            libc::signal(sig, libc::SIG_DFL);
+        }
+        let mut empty: libc::sigset_t = std::mem::zeroed();
+        libc::sigemptyset(&mut empty);
+        libc::sigprocmask(libc::SIG_SETMASK, &empty, std::ptr::null_mut());
     }
     gix_tempfile::verif::set_hook(w_hook);
     gix_tempfile::signal::setup(if cont {
@@ -826,6 +834,12 @@ fn spawn_worker(shm_path: &Path, dir: &Path, script: &str, cont: bool, free: boo
     if free {
         c.env("C23_FREE", "1");
     }
+    for _ in 0..20 {
+        match c.spawn() {
+            Ok(child) => return child,
+            Err(_) => std::thread::sleep(Duration::from_millis(250)), // EAGAIN under load
+        }
+    }
     c.spawn().expect("spawn worker")
 }
 
@@ -867,7 +881,7 @@ fn run_scenario(base: &Path, serial: u64, op_line: &str, toks: &[Tok], die: bool
         handled,
         die,
         dead: [false; MAX_PROC],
-        deadline: Instant::now() + Duration::from_secs(60),
+        deadline: Instant::now() + Duration::from_secs(25),
         book: Book {
             label_name: BTreeMap::new(),
             reg_owner: BTreeMap::new(),
@@ -1223,14 +1237,26 @@ fn op_line_of(die: bool, handled: bool, toks: &[Tok]) -> String {
 
 fn run_sc(rep: &mut Report, base: &Path, serial: &mut u64, die: bool, handled: bool, toks: &[Tok]) {
     let op = op_line_of(die, handled, toks);
-    *serial += 1;
-    let out = run_scenario(base, *serial, &op, toks, die, handled);
-    if let Some(e) = out.infra {
-        rep.note(&format!("harness problem in `{op}`: {e}"));
-        rep.bucket("infra-problem");
-        eprintln!("c23: harness problem in `{op}`: {e}");
-        std::process::exit(4);
-    }
+    // a time-out of the harness' own choreography (start-up, shared-memory handshake, signal acknowledgement):
+    // tear everything down and try again with fresh processes; give up on the scenario, never on the run
+    let mut attempt = 0;
+    let out = loop {
+        *serial += 1;
+        attempt += 1;
+        let out = run_scenario(base, *serial, &op, toks, die, handled);
+        match &out.infra {
+            None => break out,
+            Some(e) => {
+                eprintln!("c23: harness problem in `{op}` (attempt {attempt}): {e}");
+                rep.bucket("harness-retry");
+                if attempt >= MAX_ATTEMPTS {
+                    rep.note(&format!("scenario skipped after {attempt} attempts, harness problem in `{op}`: {e}"));
+                    rep.bucket("harness-skipped-scenario");
+                    return;
+                }
+            }
+        }
+    };
     let obs = format!("{};{}", out.results.join(","), out.listing);
     let nontrivial = toks.iter().any(|t| t.op == Op::Signal || t.at.is_some());
     rep.case(&op, &obs, nontrivial);
@@ -1315,7 +1341,7 @@ fn run_free(base: &Path, serial: u64, toks: &[Tok], delay: Option<Duration>, sig
     shm.turn.store(NO_TURN, SeqCst);
     let script: String = toks.iter().map(fmt_tok).collect::<Vec<_>>().join(" ");
     let mut child = spawn_worker(&shm_path, &dir, &script, false, true);
-    let deadline = Instant::now() + Duration::from_secs(60);
+    let deadline = Instant::now() + Duration::from_secs(25);
     let mut err = None;
     while shm.pids[0].load(SeqCst) == 0 {
         if Instant::now() > deadline {
@@ -1374,6 +1400,30 @@ fn run_free(base: &Path, serial: u64, toks: &[Tok], delay: Option<Duration>, sig
         return Err(format!("UNEXPECTED {}", results.iter().map(|&r| res_str(r)).collect::<Vec<_>>().join(",")));
     }
     Ok((nfin, snap, took))
+}
+
+/// `run_free`, tried again with fresh processes when the harness' own choreography timed out
+fn run_free_retry(
+    rep: &mut Report,
+    base: &Path,
+    serial: &mut u64,
+    toks: &[Tok],
+    delay: Option<Duration>,
+    sig: i32,
+) -> Result<(usize, BTreeSet<String>, Duration), String> {
+    let mut last = String::new();
+    for _ in 0..MAX_ATTEMPTS {
+        *serial += 1;
+        match run_free(base, *serial, toks, delay, sig) {
+            Err(e) if !e.starts_with("UNEXPECTED") => {
+                eprintln!("c23: harness problem in a free run: {e}");
+                rep.bucket("harness-retry");
+                last = e;
+            }
+            other => return other,
+        }
+    }
+    Err(last)
 }
 
 fn judge_free(rep: &mut Report, op: &str, toks: &[Tok], nfin: usize, snap: &BTreeSet<String>) {
@@ -1489,10 +1539,26 @@ fn main() {
     rep.finish();
 }
 
+const MAX_ATTEMPTS: u32 = 3;
+
 const HANG_KEY: &str = "handler-hang: a termination signal delivered to a thread that is inside the registry never returns";
 
 /// see `storm_worker`; the process must keep going and finish when told to
 fn storm_run(rep: &mut Report, base: &Path, serial: &mut u64, nthreads: usize, nsignals: u64) {
+    for attempt in 1..=MAX_ATTEMPTS {
+        if storm_once(rep, base, serial, nthreads, nsignals) {
+            return;
+        }
+        rep.bucket("harness-retry");
+        if attempt == MAX_ATTEMPTS {
+            rep.note(&format!("storm {nthreads} {nsignals} skipped after {attempt} attempts: the worker did not start"));
+            rep.bucket("harness-skipped-scenario");
+        }
+    }
+}
+
+/// `false`: the worker did not come up (nothing was judged)
+fn storm_once(rep: &mut Report, base: &Path, serial: &mut u64, nthreads: usize, nsignals: u64) -> bool {
     *serial += 1;
     let op = format!("storm {nthreads} {nsignals}");
     let dir = base.join(format!("st{serial}"));
@@ -1511,19 +1577,27 @@ fn storm_run(rep: &mut Report, base: &Path, serial: &mut u64, nthreads: usize, n
         .stdin(std::process::Stdio::null())
         .spawn()
         .expect("spawn worker");
-    let deadline = Instant::now() + Duration::from_secs(60);
+    let deadline = Instant::now() + Duration::from_secs(25);
     let ready = |shm: &Shm| shm.pids[1].load(SeqCst) != 0 && (0..nthreads).all(|i| shm.result[STORM_TID + i].load(SeqCst) != 0);
     while !ready(shm) && Instant::now() < deadline {
         nap();
     }
-    rep.oracle_only(&op, true);
-    rep.oracle_checked();
-    rep.bucket("storm");
     let mut problem: Option<String> = None;
     if !ready(shm) {
         eprintln!("c23: storm worker did not start");
-        std::process::exit(4);
+        shm.turn.store(0, SeqCst);
+        kill_all(shm);
+        let _ = child.kill();
+        let _ = child.wait();
+        let _ = std::fs::remove_dir_all(&dir);
+        let _ = std::fs::remove_file(&shm_path);
+        // SAFETY: unmap
+        unsafe { libc::munmap(shm as *const Shm as *mut libc::c_void, std::mem::size_of::<Shm>()) };
+        return false;
     }
+    rep.oracle_only(&op, true);
+    rep.oracle_checked();
+    rep.bucket("storm");
     let pid = shm.pids[1].load(SeqCst);
     let mut sent = 0u64;
     let mut last_seen = shm.sig_seen[1].load(SeqCst);
@@ -1568,12 +1642,13 @@ fn storm_run(rep: &mut Report, base: &Path, serial: &mut u64, nthreads: usize, n
     let _ = std::fs::remove_file(&shm_path);
     // SAFETY: unmap
     unsafe { libc::munmap(shm as *const Shm as *mut libc::c_void, std::mem::size_of::<Shm>()) };
+    true
 }
 
 fn free_runs(rep: &mut Report, base: &Path, serial: &mut u64, rng: &mut Rng, toks: &[Tok], runs: u64) {
     *serial += 1;
     let script = toks.iter().map(fmt_tok).collect::<Vec<_>>().join(" ");
-    let total = match run_free(base, *serial, toks, None, libc::SIGTERM) {
+    let total = match run_free_retry(rep, base, serial, toks, None, libc::SIGTERM) {
         Ok((_, _, took)) => took,
         Err(e) if e.starts_with("UNEXPECTED") => {
             rep.oracle_only(&format!("free {script}"), true);
@@ -1585,15 +1660,16 @@ fn free_runs(rep: &mut Report, base: &Path, serial: &mut u64, rng: &mut Rng, tok
             return;
         }
         Err(e) => {
-            eprintln!("c23: harness problem in free calibration: {e}");
-            std::process::exit(4);
+            rep.note(&format!("free script skipped, harness problem in the calibration run: {e}"));
+            rep.bucket("harness-skipped-scenario");
+            return;
         }
     };
     for _ in 0..runs {
         *serial += 1;
         let sig = *rng.pick(&[libc::SIGTERM, libc::SIGINT, libc::SIGQUIT]);
         let d = Duration::from_nanos(rng.below((total.as_nanos() as u64).max(1000) * 11 / 10));
-        match run_free(base, *serial, toks, Some(d), sig) {
+        match run_free_retry(rep, base, serial, toks, Some(d), sig) {
             Ok((nfin, snap, _)) => {
                 let obs = listing(&snap);
                 let op = format!("rnd H {nfin} {obs} {script}");
@@ -1615,8 +1691,8 @@ fn free_runs(rep: &mut Report, base: &Path, serial: &mut u64, rng: &mut Rng, tok
                 );
             }
             Err(e) => {
-                eprintln!("c23: harness problem in free run: {e}");
-                std::process::exit(4);
+                rep.note(&format!("free run skipped, harness problem: {e}"));
+                rep.bucket("harness-skipped-scenario");
             }
         }
     }
